@@ -199,8 +199,10 @@ def run_property(pid, tier, repo, seed):
     ev = dict(property_id=pid, tier=tier, seed=seed, level=level, coverage=cov,
               assumptions=spec.get('assumptions', []) + P.STANDING_ASSUMPTIONS,
               wall_s=round(wall, 2), violations=len(seen))
-    os.makedirs(os.path.join(HERE, 'evidence'), exist_ok=True)
-    json.dump(ev, open(os.path.join(HERE, 'evidence', pid + '.json'), 'w'), indent=1)
+    # evidence is only ever written for runs against /repo itself (never for scratch copies used in self-tests)
+    evdir = os.path.join(HERE, 'evidence') if os.path.realpath(repo) == '/repo' and not os.environ.get('VERIF_ONLY') else os.path.join(SCRATCH_ROOT, 'evidence-scratch')
+    os.makedirs(evdir, exist_ok=True)
+    json.dump(ev, open(os.path.join(evdir, pid + '.json'), 'w'), indent=1)
     print(f"{pid}: {discharged}/{obligations} complete obligations discharged, {len(bounded)} bounded, "
           f"{len(known_hits)} known findings, {len(seen)} new violations, {wall:.1f}s")
     return exit_code
